@@ -30,7 +30,11 @@ RefsSmall == {R1(1), R2(1, 1), R2(1, 2), R1(2)}
 RefsTriple == {R2(1, 2), R3(1, 2, 1), R3(1, 2, 3), R2(3, 1)}
 RefsPre == {<<Rf(1, TRUE)>>, <<Rf(1, TRUE), Rf(2, FALSE)>>, <<Rf(1, FALSE), Rf(1, TRUE)>>, <<Rf(2, TRUE), Rf(1, TRUE)>>}
 
-O(regime, eps, igI, igM, filt) == [regime |-> regime, eps |-> eps, igI |-> igI, igM |-> igM, filt |-> filt]
+O(regime, eps, igI, igM, filt) == [regime |-> regime, cut |-> 0, eps |-> eps, igI |-> igI, igM |-> igM, filt |-> filt]
+OM(cut, eps, igI) == [regime |-> "mixed", cut |-> cut, eps |-> eps, igI |-> igI, igM |-> FALSE, filt |-> 0]
+OptsMixed1 == {OM(2, 1, i) : i \in BOOLEAN}
+OptsMixedQ == {OM(cu, e, FALSE) : cu \in {1, 2}, e \in {0, 1}}
+OptsMixed == {OM(cu, e, i) : cu \in {1, 2, 3}, e \in {0, 1}, i \in BOOLEAN}
 OptsCommit == {O("commit", 0, i, m, 0) : i, m \in BOOLEAN}
 OptsCommitE == {O("commit", e, i, m, 0) : e \in {0, 1, 2}, i, m \in BOOLEAN}
 OptsStamp1 == {O("stamp", 1, i, FALSE, 0) : i \in BOOLEAN}
@@ -39,5 +43,7 @@ OptsStamp012 == {O("stamp", e, i, m, 0) : e \in {0, 1, 2}, i, m \in BOOLEAN}
 OptsStamp2 == {O("stamp", 2, i, FALSE, 0) : i \in BOOLEAN}
 OptsFilter == {O(r, 1, i, FALSE, f) : r \in {"commit", "stamp"}, i \in BOOLEAN, f \in {0, -1, 1}}
 OptsOrder == {O("commit", 0, FALSE, FALSE, 0), O("commit", 0, TRUE, TRUE, 0), O("stamp", 1, FALSE, FALSE, 0)}
+OptsOrderMixed == {OM(1, 1, FALSE), OM(2, 0, TRUE)}
+OptsOrderM == OptsOrder \cup OptsOrderMixed
 OptsBoth == OptsCommitE \cup OptsStamp012
 =============================================================================
